@@ -91,7 +91,13 @@ pub fn reference(c: &Content, qname: &str, qtype: Rtype) -> RefAns {
             if let Some((_, targets)) = c.get(&(a.clone(), Rtype::NS)) {
                 for t in targets {
                     let t = owner_str(t);
-                    if t == a || t.ends_with(&format!(".{}", a)) {
+                    // RFC 1034 section 4.3.2 step 3b: "whatever addresses
+                    // are available ... using glue RRs if the addresses are
+                    // not available from authoritative data": a target at or
+                    // below this or any other cut of the zone has nothing
+                    // but glue.
+                    let occluded = ancestors_top_down(&t).iter().any(|x| x != APEX && c.contains_key(&(x.clone(), Rtype::NS)));
+                    if t == a || t.ends_with(&format!(".{}", a)) || occluded {
                         glue.extend(recs_at(c, &t, Rtype::A, &t));
                         glue.extend(recs_at(c, &t, Rtype::AAAA, &t));
                     }
@@ -163,6 +169,9 @@ fn compare_ref(c: &Content, qname: &str, qtype: Rtype, a: &Ans) -> Option<(Strin
             if a.aa {
                 return Some(("aa-set-on-referral".into(), format!("{:?}", a)));
             }
+            if !r.glue.is_empty() {
+                sim::stat("probe.referral_with_required_glue");
+            }
             for g in &r.glue {
                 if !a.additional.contains(g) {
                     return Some(("referral-glue-missing".into(), format!("required glue {:?} missing from {:?}", g, a.additional)));
@@ -233,6 +242,31 @@ fn role_of(c: &Content, owner: &str) -> Option<Role> {
     None
 }
 
+/// The name server a delegation at `owner` names: outside the name universe
+/// (no address in the zone), the cut itself, a name below it, or a name at or
+/// below another cut of the zone (sibling glue). No draws of its own.
+fn ns_target(c: &Content, owner: &str, i: u64, sel: u64) -> String {
+    match sel % 4 {
+        0 => format!("ns{}.{}", i % 2, if i < 2 { APEX.to_string() } else { owner.to_string() }),
+        1 => {
+            if i % 2 == 0 {
+                owner.to_string()
+            } else {
+                format!("a.{}", owner)
+            }
+        }
+        2 => format!("{}.{}", if i % 2 == 0 { "a" } else { "b" }, owner),
+        _ => {
+            let others: Vec<&String> = c.keys().filter(|(o, t)| *t == Rtype::NS && o != APEX && o != owner).map(|(o, _)| o).collect();
+            match others.get(i as usize % others.len().max(1)) {
+                Some(o) if i < 2 => format!("a.{}", o),
+                Some(o) => o.to_string(),
+                None => format!("b.{}", owner),
+            }
+        }
+    }
+}
+
 /// Generate one record that keeps the content a legal zone (no CNAME next
 /// to other data, no non-glue data at a cut, DS only with NS).
 fn gen_legal_rec(c: &Content, names: &[String], allow_special: bool) -> Option<RecSpec> {
@@ -245,19 +279,19 @@ fn gen_legal_rec(c: &Content, names: &[String], allow_special: bool) -> Option<R
         return None;
     }
     let (rtype, rdata) = match (role, kind) {
-        (Some(Role::Cut), 0..=3) => (Rtype::NS, format!("ns{}.{}", i % 2, if i < 2 { APEX.to_string() } else { owner.clone() })),
+        (Some(Role::Cut), 0..=3) => (Rtype::NS, ns_target(c, &owner, i, kind)),
         (Some(Role::Cut), 4 | 5) => (Rtype::DS, rdata_for(Rtype::DS, i)),
         (Some(Role::Cut), _) => (Rtype::A, rdata_for(Rtype::A, i)), // glue at the cut name
         (Some(Role::Cname), _) => return None,                      // a CNAME owner holds nothing else
-        (None, 8) if allow_special && owner != APEX && !owner.starts_with("*.") => (Rtype::NS, format!("ns{}.{}", i % 2, if i < 2 { APEX.to_string() } else { owner.clone() })),
+        (None, 8) if allow_special && owner != APEX && !owner.starts_with("*.") => (Rtype::NS, ns_target(c, &owner, i, i)),
         (None, 9) if allow_special && owner != APEX => (Rtype::CNAME, rdata_for(Rtype::CNAME, i)),
         _ => {
             let t = *sim::pick("rec.type", &[Rtype::A, Rtype::TXT, Rtype::AAAA, Rtype::MX]);
             (t, rdata_for(t, i))
         }
     };
-    // ns0.<cut> style targets get glue opportunistically through the
-    // generator picking that name later; not required.
+    // Targets inside the universe get their addresses (glue)
+    // opportunistically through the generator picking that name.
     Some(RecSpec { owner, rtype, ttl, rdata })
 }
 
@@ -275,6 +309,21 @@ struct Hist {
 
 fn subtree_has_data(c: &Content, n: &str) -> bool {
     exists(c, n)
+}
+
+/// The referral at or above `qname` names a server at or below a cut whose
+/// address records were written through the write interface: the cut keeps
+/// the glue it was built with (same root as cut-via-write-interface).
+fn glue_written(c: &Content, h: &Hist, qname: &str) -> bool {
+    for a in ancestors_top_down(qname) {
+        if let Some((_, targets)) = c.get(&(a.clone(), Rtype::NS)) {
+            return targets.iter().any(|t| {
+                let t = owner_str(t);
+                h.written_rrsets.contains(&(t.clone(), Rtype::A)) || h.written_rrsets.contains(&(t, Rtype::AAAA))
+            });
+        }
+    }
+    false
 }
 
 /// Which known root cause (if any) can explain a deviation at `qname`.
@@ -298,6 +347,9 @@ fn marker(c: &Content, h: &Hist, qname: &str) -> &'static str {
         if h.written_nodes.contains(a) && !c.keys().any(|(o, _)| o == a) {
             return if subtree_has_data(c, a) { "empty-non-terminal-via-write-interface" } else { "dead-node-via-write-interface" };
         }
+    }
+    if glue_written(c, h, qname) {
+        return "glue-via-write-interface";
     }
     "no-known-cause"
 }
@@ -814,6 +866,30 @@ async fn run(_tier: Tier) {
             apply_add(&mut c, &r);
         }
     }
+    // Delegations that share name servers: every cut names up to two
+    // servers at or below itself or another cut, and those get addresses.
+    if sim::chance("init.glue_bundle", 1, 3) {
+        let cuts: Vec<String> = c.keys().filter(|(o, t)| *t == Rtype::NS && o != APEX).map(|(o, _)| o.clone()).collect();
+        for cut in cuts.iter().take(4) {
+            for _ in 0..1 + sim::draw("init.glue_targets", 2) {
+                let host = &cuts[sim::draw("init.glue_host_cut", cuts.len() as u64) as usize];
+                let target = match sim::draw("init.glue_host", 3) {
+                    0 => host.clone(),
+                    1 => format!("a.{}", host),
+                    _ => format!("b.{}", host),
+                };
+                if target.len() > 60 || matches!(role_of(&c, &target), Some(Role::Cname)) {
+                    continue;
+                }
+                let ns_ttl = c[&(cut.clone(), Rtype::NS)].0;
+                apply_add(&mut c, &RecSpec { owner: cut.clone(), rtype: Rtype::NS, ttl: ns_ttl, rdata: target.clone() });
+                let t = *sim::pick("init.glue_type", &[Rtype::A, Rtype::AAAA]);
+                let ttl = c.get(&(target.clone(), t)).map(|x| x.0).unwrap_or(300);
+                apply_add(&mut c, &RecSpec { owner: target, rtype: t, ttl, rdata: rdata_for(t, sim::draw("init.glue_rdata", 4)) });
+            }
+        }
+        sim::stat("probe.glue_bundle");
+    }
     let zone = match build_direct(&c) {
         Ok(z) => z,
         Err(e) => {
@@ -844,9 +920,14 @@ async fn run(_tier: Tier) {
     let mut expect: Vec<(String, Rtype, u32, Vec<String>)> = c.iter().map(|((o, t), (ttl, rds))| (o.clone(), *t, *ttl, rds.iter().cloned().collect())).collect();
     expect.sort();
     let mut got: Vec<(String, Rtype, u32, Vec<String>)> = w.iter().map(|(o, t, ttl, rds, _)| (o.clone(), *t, *ttl, rds.clone())).collect();
-    // A zone cut built directly reports its glue once more through the cut.
+    // A zone cut built directly reports its glue once more through the cut,
+    // record by record: merge what is reported for one (owner, type, TTL).
+    let mut merged: BTreeMap<(String, Rtype, u32), BTreeSet<String>> = BTreeMap::new();
+    for (o, t, ttl, rds) in got.drain(..) {
+        merged.entry((o, t, ttl)).or_default().extend(rds);
+    }
+    let mut got: Vec<(String, Rtype, u32, Vec<String>)> = merged.into_iter().map(|((o, t, ttl), rds)| (o, t, ttl, rds.into_iter().collect())).collect();
     got.sort();
-    got.dedup();
     // Names strictly below a delegation are occluded: the directly built
     // zone lists only the cut's glue there, a zone with history lists what
     // was written. Answers never come from there, so the guard skips them.
@@ -909,7 +990,22 @@ async fn run(_tier: Tier) {
             }
             // (2) history independence.
             if h.commits + h.aborts > 0 && a_hist != a_dir {
-                let m = if clean { "clean-history" } else { marker(&c, &h, q) };
+                // Glue is the one trigger a clean history does not avoid by
+                // construction; it only ever explains a difference in the
+                // additional section of a referral.
+                let glue_only = a_hist.kind() == "REFERRAL" && a_dir.kind() == "REFERRAL" && a_hist.answer == a_dir.answer && a_hist.authority == a_dir.authority;
+                let m = if clean {
+                    if glue_only && glue_written(&c, &h, q) {
+                        "glue-via-write-interface"
+                    } else {
+                        "clean-history"
+                    }
+                } else {
+                    match marker(&c, &h, q) {
+                        "glue-via-write-interface" if !glue_only => "no-known-cause",
+                        m => m,
+                    }
+                };
                 let sig = format!("history-{}-direct-{}/{}", a_hist.kind(), a_dir.kind(), m);
                 if sim::violation(
                     P8,
